@@ -3,6 +3,7 @@ package props
 import (
 	"fmt"
 	"go/token"
+	"go/types"
 	"sort"
 	"strings"
 
@@ -18,7 +19,7 @@ func init() {
 		Explanation: "Decides the limit mechanism, not byte equality for all chunkings: R1 the four body entry points (Write/ReadFrom x request/response) have the same decision skeleton under the renaming request<->response (set of branch conditions, limit-error flag, Reject interruption with 413/500, truncation to limit-length, single Process*Body on ProcessPartial), compared pairwise with a reasoned allowlist of differences, and every rejection site answers 413 on the request side and 500 on the response side; " +
 			"R2 nothing beyond the limit is stored: both writes in BodyBuffer.Write are dominated by length <= Limit - len(data), and the slice handed to the buffer by the Write* entry points has a bound that is provably >= 0 and <= len(b) (guard facts + the relational step limit-length <= n from length+n >= limit); " +
 			"R3 limits are sane: WAF.Validate bounds every limit, coraza.NewWAF cannot succeed without passing Validate, and every run-time store to the per-transaction limits is range-checked against (0, WAF limit]; R4 body readers advance by the bytes they return; " +
-			"R5 BodyBuffer.length is written only by Write (cumulative) and Reset; R6 once spilled to disk the buffer never writes to memory again (spill decision on the cumulative length, or memory write guarded by writer == nil).",
+			"R4 also: every direct Read call on a reader consumes the n bytes it returned on every path (also when the error is io.EOF); R5 BodyBuffer.length is written only by Write (cumulative) and Reset; R6 once spilled to disk the buffer never writes to memory again (spill decision on the cumulative length, or memory write guarded by writer == nil).",
 		NotDecided: []string{
 			"byte equality of what is read back for every chunking",
 			"equivalence of in-memory and on-disk storage contents",
@@ -295,6 +296,12 @@ func runC10(c *an.Ctx) {
 		})
 	}
 
+	// ... and whoever reads a body honours the io.Reader contract: Read may return n > 0 together with io.EOF (the
+	// file-backed body reader does, on the final short read), so the n bytes are consumed before, or regardless
+	// of, the error test.  A loop that returns on err == io.EOF first silently loses the tail of a body that was
+	// spilled to disk while the same body held in memory is read completely.
+	c10ReadLoops(c)
+
 	// ---- R5 length accounting.
 	whoMayWrite(c, "R5", pkgWAF, "BodyBuffer", "length", []storeRule{
 		{fn: "internal/corazawaf.(*BodyBuffer).Write", why: "cumulative accounting", check: func(c *an.Ctx, fs an.FieldStore) (bool, string) {
@@ -544,4 +551,108 @@ func c10LimitSanity(c *an.Ctx) {
 		}
 		c.MinCount("R3", "run-time stores to "+lim, n, 1)
 	}
+}
+
+// c10ReadLoops: every call of a Read(p []byte) (n int, err error) method in the module uses n on every path.
+func c10ReadLoops(c *an.Ctx) {
+	nR := 0
+	seen := map[string]int{}
+	for _, fn := range c.P.ModFuncs {
+		rp := relPkg(fn)
+		if strings.HasPrefix(rp, "testing") || strings.HasPrefix(rp, "examples") || strings.HasSuffix(rp, "/generator") {
+			continue
+		}
+		an.Instrs(fn, func(in ssa.Instruction) {
+			call, ok := in.(*ssa.Call)
+			if !ok {
+				return
+			}
+			name := ""
+			if call.Call.IsInvoke() {
+				name = call.Call.Method.Name()
+			} else if sc := call.Call.StaticCallee(); sc != nil && sc.Signature.Recv() != nil {
+				name = sc.Name()
+			}
+			if name != "Read" && name != "ReadAt" {
+				return
+			}
+			sig := call.Call.Signature()
+			if sig.Results().Len() != 2 || !isIntType(sig.Results().At(0).Type()) || sig.Results().At(1).Type().String() != "error" {
+				return
+			}
+			var nV ssa.Value
+			for _, r := range *call.Referrers() {
+				if ex, ok := r.(*ssa.Extract); ok && ex.Index == 0 {
+					nV = ex
+				}
+			}
+			nR++
+			c.FuncsAnalysed[fn] = true
+			k := fmt.Sprintf("%s result consumed on every path in %s", name, an.RelName(fn))
+			seen[k]++
+			key := k
+			if seen[k] > 1 {
+				key += fmt.Sprintf("#%d", seen[k])
+			}
+			// the whole tuple returned to the caller: the caller's business
+			tupleReturned := false
+			for _, r := range *call.Referrers() {
+				if _, ok := r.(*ssa.Return); ok {
+					tupleReturned = true
+				}
+			}
+			if tupleReturned {
+				c.Ok("R4", key, in.Pos(), "the (n, err) pair is returned to the caller unchanged")
+				return
+			}
+			if nV == nil {
+				c.Bad("R4", key, in.Pos(), "the byte count returned by "+name+" is never looked at: bytes returned together with an error (io.EOF on the final read) are lost")
+				return
+			}
+			uses := map[ssa.Instruction]bool{}
+			for _, r := range *nV.Referrers() {
+				if b, ok := r.(*ssa.BinOp); ok {
+					switch b.Op {
+					case token.EQL, token.NEQ, token.LSS, token.LEQ, token.GTR, token.GEQ:
+						continue // a test of n is not a use of the bytes
+					}
+				}
+				uses[r] = true
+			}
+			nE := an.Expr(nV)
+			w := an.FindPath(an.PathQuery{Fn: fn, After: in,
+				Stop: func(x ssa.Instruction) bool { return uses[x] },
+				Target: func(x ssa.Instruction) bool {
+					if r, ok := x.(*ssa.Return); ok {
+						// leaving with the error is not silent; leaving as a success is
+						ei := an.ErrorIndex(fn.Signature)
+						return ei < 0 || an.ReturnMayBeNilError(r, ei)
+					}
+					return x == ssa.Instruction(call)
+				},
+				PruneEdge: func(b *ssa.BasicBlock, si int) bool {
+					ifi, ok := b.Instrs[len(b.Instrs)-1].(*ssa.If)
+					if !ok {
+						return false
+					}
+					for _, a := range an.CondAtoms(ifi.Cond, si == 0) {
+						if a.L == nE && (a.Op == "==" && a.R == "0" || a.Op == "<=" && a.R == "0" || a.Op == "<" && a.R == "1") {
+							return true // nothing was read on this edge
+						}
+					}
+					return false
+				}})
+			if w != nil {
+				c.Bad("R4", key, w.Target.Pos(), "after "+name+" returned (n, err), a path leaves (or reads again) without using the n bytes — typically `if err == io.EOF { return }` placed before the data is appended: a reader that returns the last bytes together with io.EOF (the disk-backed body reader does) loses them", c.P.TrailString(w)...)
+			} else {
+				c.Ok("R4", key, in.Pos(), "every path from the call uses n before returning or reading again")
+			}
+		})
+	}
+	c.MinCount("R4", "direct Read/ReadAt calls", nR, 1)
+}
+
+func isIntType(t types.Type) bool {
+	b, ok := t.Underlying().(*types.Basic)
+	return ok && b.Kind() == types.Int
 }
